@@ -451,3 +451,91 @@ pub fn nested_function_programs() -> Vec<Vec<Stmt>> {
     }
     out
 }
+
+/// Functions defined inside top-level scopes (block, `als` branch, loop body) nested to depth 1..3, where
+/// each level may declare its own `x` (distinct literals, so the value read names the declaration): the
+/// function reads or writes `x` and is called INSIDE the scope that defined it (calling it after the scope
+/// has ended is U2); every level prints its `x` on the way out. Also the whole thing inside a function body.
+pub fn block_function_programs() -> Vec<Vec<Stmt>> {
+    let mut out = Vec::new();
+    for depth in 1..=3usize {
+        for mask in 0..(1u32 << (depth + 1)) {
+            // bit 0: the global level declares x; bit k: scope level k declares x
+            if mask == 0 {
+                continue; // x undeclared everywhere: covered by the (u) variants
+            }
+            if mask & 1 == 0 && (mask >> 1).trailing_zeros() > 0 && depth > 1 {
+                // fine: x only declared deeper; the outer prints would be reference errors — skip those prints below
+            }
+            for scope_kind in 0..3 {
+                for fn_kind in 0..2 {
+                    for action in 0..3 {
+                        // innermost statements
+                        let body: Vec<Stmt> = match action {
+                            0 => vec![es(id("x"))],
+                            1 => vec![es(assign(id("x"), int(77))), es(id("x"))],
+                            _ => vec![es(call(func("", &[], vec![es(infix(id("x"), Operator::Add, int(1000)))]), vec![]))],
+                        };
+                        let def = if fn_kind == 0 { es(func("f", &[], body)) } else { let_("f", func("", &[], body)) };
+                        let declared_at_or_above = |lvl: usize| (0..=lvl).any(|k| mask & (1 << k) != 0);
+                        let mut inner: Vec<Stmt> = Vec::new();
+                        if mask & (1 << depth) != 0 {
+                            inner.push(let_("x", int(10 * (depth as i64 + 1))));
+                        }
+                        if !declared_at_or_above(depth) {
+                            continue;
+                        }
+                        inner.push(def.clone());
+                        inner.push(print1(calln("f", vec![])));
+                        inner.push(print1(id("x")));
+                        let mut ok = true;
+                        for lvl in (1..depth).rev() {
+                            let mut stmts: Vec<Stmt> = Vec::new();
+                            if mask & (1 << lvl) != 0 {
+                                stmts.push(let_("x", int(10 * (lvl as i64 + 1))));
+                            }
+                            stmts.push(wrap_scope(scope_kind, inner));
+                            if declared_at_or_above(lvl) {
+                                stmts.push(print1(id("x")));
+                            }
+                            inner = stmts;
+                            let _ = &mut ok;
+                        }
+                        let mut prog: Vec<Stmt> = Vec::new();
+                        if mask & 1 != 0 {
+                            prog.push(let_("x", int(10)));
+                        }
+                        prog.push(let_("once", int(0)));
+                        prog.push(wrap_scope(scope_kind, inner));
+                        if mask & 1 != 0 {
+                            prog.push(print1(id("x")));
+                        }
+                        out.push(prog.clone());
+                        // the same inside a function body (the scopes are then local scopes of a function, and
+                        // the inner function cannot see them: reading x there must find the GLOBAL x or fail)
+                        if mask & 1 != 0 {
+                            let mut body = prog[1..].to_vec();
+                            body.push(es(int(0)));
+                            out.push(vec![prog[0].clone(), es(func("host", &[], body)), es(calln("host", vec![])), print1(id("x"))]);
+                        }
+                    }
+                }
+            }
+        }
+    }
+    out
+}
+
+fn wrap_scope(kind: usize, stmts: Vec<Stmt>) -> Stmt {
+    match kind {
+        0 => Stmt::Block(stmts),
+        1 => es(iff(boolean(true), stmts, None)),
+        _ => {
+            // a loop that runs once
+            let mut b = vec![es(assign(id("once"), infix(id("once"), Operator::Add, int(1))))];
+            b.extend(stmts);
+            b.push(es(iff(boolean(true), vec![Stmt::Break], None)));
+            es(whil(boolean(true), b))
+        }
+    }
+}
